@@ -299,6 +299,8 @@ type scenario struct {
 	jitterUs   int
 	wire       int // > 0: run over the real kafka.Transport against this many byte-level brokers
 	moves      []leaderMove
+	linger     time.Duration            // > 0: timed run — the trace carries clock ticks and the model's linger bound (BatchTimeout + slack) applies
+	trickle    time.Duration            // > 0 (with one caller): pause between the calls of a caller
 	sinkDelay  map[string]time.Duration // event key ("PW.NewBatch", "PW.Detach:timer", "Q.Get:batch", "B.TimerFire") -> stall inside that critical section
 }
 
@@ -530,6 +532,87 @@ func (b *builder) ctxHold(i int) *scenario {
 	sc.faults[tpKey{"t", 0}] = []fault{first, {kind: "ok"}, {kind: "ok"}}
 	return sc
 }
+
+// defaults: BatchSize, BatchBytes and MaxAttempts left unset (0): the limits are the documented defaults 100 /
+// 1048576 / 10.  A message larger than 1 MiB must be rejected up front (nothing of its call is sent), a message of
+// exactly 1 MiB goes out alone, two messages of 0.6 MiB go out in two requests, 101 small messages in 100 + 1, and
+// the tenth attempt of a batch still happens after nine retriable failures.
+func (b *builder) defaults(i int) *scenario {
+	r := b.r
+	sc := &scenario{name: "defaults" + strconv.Itoa(i), bs: 0, bb: 0, ma: 0, async: i%3 == 2, compl: i%2 == 0, wtopic: "t",
+		timeout: 2 * time.Millisecond, nparts: map[string]int{"t": 1 + i%2}, faults: map[tpKey][]fault{}, closeAt: -1}
+	const mib = 1048576
+	var calls []callSpec
+	add := func(ms ...msgSpec) {
+		b.nextC++
+		calls = append(calls, callSpec{id: b.nextC, msgs: ms})
+	}
+	switch i % 4 {
+	case 0: // oversize in the middle of a call
+		add(b.mkMsg(50, "", 0, false), b.mkMsg(mib+1+r.Intn(5000), "", 0, false), b.mkMsg(50, "", 0, false))
+		add(b.mkMsg(60, "", 0, false))
+	case 1: // exactly the limit, then two that do not fit together
+		add(b.mkMsg(mib, "", 0, false))
+		add(b.mkMsg(600000, "", 0, false), b.mkMsg(600000, "", 0, false), b.mkMsg(40, "", 0, false))
+	case 2: // default BatchSize: 100 + 1
+		var ms []msgSpec
+		for k := 0; k < 101+r.Intn(30); k++ {
+			ms = append(ms, b.mkMsg(40+r.Intn(4), "", 0, false))
+		}
+		add(ms...)
+		add(b.mkMsg(mib+1, "", 0, false))
+	case 3: // default MaxAttempts: nine retriable failures, the tenth attempt succeeds; then ten failures
+		add(b.mkMsg(45, "", 0, false))
+		add(b.mkMsg(45, "", 0, false))
+		var script []fault
+		for k := 0; k < 9; k++ {
+			script = append(script, fault{kind: "kerr", code: temporaryCodes[r.Intn(len(temporaryCodes))]})
+		}
+		script = append(script, fault{kind: "ok"})
+		for k := 0; k < 10; k++ {
+			script = append(script, fault{kind: "kerr", code: 6})
+		}
+		script = append(script, fault{kind: "ok"})
+		sc.faults[tpKey{"t", 0}] = script
+	}
+	sc.callers = [][]callSpec{calls}
+	return sc
+}
+
+// trickle: one goroutine keeps appending single messages to one partition at intervals well below BatchTimeout, for
+// many BatchTimeouts, with a BatchSize that is never reached: every batch must be closed BatchTimeout after it was
+// OPENED although messages keep arriving.  Timed run: the trace carries the clock, and the model forbids the clock to
+// pass openedAt + BatchTimeout + slack while the batch is still attached.
+func (b *builder) trickleFamily(i int) *scenario {
+	r := b.r
+	timeout := time.Duration(8+4*(i%3)) * time.Millisecond
+	sc := &scenario{name: "trickle" + strconv.Itoa(i), bs: 1000, bb: 1 << 20, ma: 2, async: i%2 == 0, compl: i%3 == 0, wtopic: "t",
+		timeout: timeout, nparts: map[string]int{"t": 1}, faults: map[tpKey][]fault{}, closeAt: -1,
+		linger: timeout + lingerSlack, trickle: timeout / 5}
+	var calls []callSpec
+	n := int((lingerSlack + 6*timeout) / sc.trickle)
+	for k := 0; k < n; k++ {
+		b.nextC++
+		calls = append(calls, callSpec{id: b.nextC, msgs: []msgSpec{b.mkMsg(40+r.Intn(8), "", 0, false)}})
+	}
+	sc.callers = [][]callSpec{calls}
+	if !sc.async {
+		// synchronous callers wait for their batch: several of them keep the trickle going
+		sc.callers = nil
+		for c := 0; c < 6; c++ {
+			var cs []callSpec
+			for k := c; k < n; k += 6 {
+				cs = append(cs, calls[k])
+			}
+			sc.callers = append(sc.callers, cs)
+		}
+	}
+	return sc
+}
+
+// lingerSlack: how late after BatchTimeout the timer goroutine may get to close the batch (scheduling, the partition
+// mutex) before the run counts it as "not closed BatchTimeout after it was opened"
+const lingerSlack = 120 * time.Millisecond
 
 // tinyTimeout: BatchTimeout of microseconds with BatchSize 2 and odd message counts, while every batch creation is
 // stalled inside the partition mutex: the linger timer of a batch expires while writeMessages fills and queues it and
@@ -800,8 +883,15 @@ func run(sc *scenario, out *bufio.Writer) {
 	var dumpMu sync.Mutex
 	var dump func(why string) // set below, once the calls exist
 	completed := map[string]bool{}
+	tickAt := map[int]int64{} // timed runs: recorder sequence number of a PW.NewBatch / PW.Add / B.TimerFire event -> µs since start
+	t0run := time.Now()
 	kafka.VerifSetSink(func(e kafka.VerifEvent) {
 		now := time.Now()
+		if sc.linger > 0 && (e.Kind == "PW.NewBatch" || e.Kind == "PW.Add" || e.Kind == "B.TimerFire") {
+			tmu.Lock()
+			tickAt[e.Seq] = now.Sub(t0run).Microseconds()
+			tmu.Unlock()
+		}
 		switch e.Kind {
 		case "W.Batch", "W.NewPW", "PW.Add":
 			// events of the batchMessages critical section: emitted by the goroutine that holds w.mutex, so the time
@@ -901,7 +991,7 @@ func run(sc *scenario, out *bufio.Writer) {
 		if wt == "" {
 			wt = "-"
 		}
-		fmt.Fprintf(&sb, "wtrace %s %d %d %d %d %d %s | ", sc.name, sc.bs, sc.bb, sc.ma, b2i(sc.async), b2i(sc.compl), wt)
+		fmt.Fprintf(&sb, "wtrace %s %d %d %d %d %d %s %d | ", sc.name, sc.bs, sc.bb, sc.ma, b2i(sc.async), b2i(sc.compl), wt, sc.linger.Microseconds())
 		first := true
 		for ci := range live {
 			for si, lc := range live[ci] {
@@ -923,7 +1013,9 @@ func run(sc *scenario, out *bufio.Writer) {
 			}
 		}
 		sb.WriteString(" | ")
-		sb.WriteString(renderEvents(evs))
+		tmu.Lock()
+		sb.WriteString(renderEvents(evs, tickAt))
+		tmu.Unlock()
 		sb.WriteString("\t")
 		sort.Slice(results, func(i, j int) bool { return results[i].call < results[j].call })
 		sb.WriteString("ret ")
@@ -990,7 +1082,14 @@ func run(sc *scenario, out *bufio.Writer) {
 					panic("empty WriteMessages returned " + err.Error())
 				}
 			}
-			for _, lc := range live[ci] {
+			for k, lc := range live[ci] {
+				if sc.trickle > 0 {
+					if k == 0 {
+						time.Sleep(time.Duration(ci) * sc.trickle)
+					} else {
+						time.Sleep(sc.trickle * time.Duration(len(live)))
+					}
+				}
 				if sc.jitter && jr.Intn(2) == 0 {
 					time.Sleep(time.Duration(jr.Intn(sc.jitterMaxUs())) * time.Microsecond)
 				}
@@ -1273,7 +1372,7 @@ func waitEvent(kind string, max time.Duration) bool {
 
 // renderEvents renames the recorder's object ids per kind to creation order (a freed object's address may be
 // reused by a later one: ids are bound at the creating event) and joins the events with ';'.
-func renderEvents(evs []kafka.VerifEvent) string {
+func renderEvents(evs []kafka.VerifEvent, tickAt map[int]int64) string {
 	pw, q, bt := map[string]string{}, map[string]string{}, map[string]string{}
 	ren := func(m map[string]string, pre, raw string, create bool) string {
 		if raw == "nil" {
@@ -1295,6 +1394,9 @@ func renderEvents(evs []kafka.VerifEvent) string {
 		if !(strings.HasPrefix(e.Kind, "W.") || strings.HasPrefix(e.Kind, "PW.") || strings.HasPrefix(e.Kind, "Q.") ||
 			strings.HasPrefix(e.Kind, "B.") || strings.HasPrefix(e.Kind, "Br.")) {
 			continue
+		}
+		if t, ok := tickAt[e.Seq]; ok {
+			parts = append(parts, "T.Tick "+strconv.FormatInt(t, 10))
 		}
 		a := append([]string(nil), e.Args...)
 		switch e.Kind {
@@ -1365,6 +1467,12 @@ func main() {
 	}
 	for i := 0; i < 12*extra && failedScenarios < 3; i++ {
 		run(b.ctxHold(i), out)
+	}
+	for i := 0; i < 8*extra && failedScenarios < 3; i++ {
+		run(b.defaults(i), out)
+	}
+	for i := 0; i < 3+extra && failedScenarios < 3; i++ {
+		run(b.trickleFamily(i), out)
 	}
 	for i := 0; i < n && failedScenarios < 3; i++ {
 		run(b.random(i, thorough), out)
